@@ -17,11 +17,11 @@ from .common import COMPONENTS_BASE, run_sim, new_sim, finish_outcome
 
 PID = "C20"
 LEVEL = "exploration"
-BUDGET = {"quick": 6000, "thorough": 100000}
+BUDGET = {"quick": 40000, "thorough": 500000}
 RULE = (
     "each run draws a streaming tool (zip map filter filterfalse enumerate accumulate batched chain compress "
-    "dropwhile takewhile islice pairwise starmap zip_longest merge tee) or a single-pass aggregation (all any sum "
-    "min max reduce nlargest nsmallest), 1..3 streams of 50..2000 fresh items (async generator or class-based "
+    "dropwhile takewhile islice pairwise starmap zip_longest merge tee groupby) or a single-pass aggregation (all any sum "
+    "min max reduce nlargest nsmallest), 1..3 streams of 50..6000 fresh items (async generator or class-based "
     "iterator, suspending every k-th pull), window parameters, and for tee a seeded pattern of child progress and "
     "early closes. Oracle at every consumer step / source pull: live weakrefs among delivered items <= 4*sources + "
     "window (batch size, n of nlargest/nsmallest, 1 per source for merge, lead of the fastest over the slowest live "
@@ -37,7 +37,7 @@ ASSUMPTIONS = [
 PROBES = ("len>=800", "tee_lagging_child_closed", "aggregation", "multi_source", "window_tool")
 
 TOOLS = ("zip", "map", "filter", "filterfalse", "enumerate", "accumulate", "batched", "chain", "compress",
-         "dropwhile", "takewhile", "islice", "pairwise", "starmap", "zip_longest", "merge", "tee",
+         "dropwhile", "takewhile", "islice", "pairwise", "starmap", "zip_longest", "merge", "tee", "groupby",
          "all", "any", "sum", "min", "max", "reduce", "nlargest", "nsmallest")
 AGGS = ("all", "any", "sum", "min", "max", "reduce", "nlargest", "nsmallest")
 
@@ -139,7 +139,7 @@ def make_stream(sim, cnt, length, flavour, every, keyfn, wrap=None, check_on_pul
 
 def gen(ch):
     sc = {"tool": TOOLS[ch.draw(len(TOOLS))]}
-    sc["length"] = (50, 120, 300, 800, 2000)[ch.weighted([6, 5, 3, 2, 1])]
+    sc["length"] = (50, 120, 300, 800, 2000, 6000)[ch.weighted([12, 10, 6, 4, 2, 1])]
     sc["flavour"] = ch.draw(2)
     sc["every"] = (0, 1, 7, 50)[ch.draw(4)]
     sc["nsrc"] = 1
@@ -149,6 +149,7 @@ def gen(ch):
     if t == "compress":
         sc["nsrc"] = 2
     sc["n"] = ch.between(1, 40)  # batch size / n of nlargest / islice step
+    sc["gb"] = (ch.draw(3), ch.draw(3))  # groupby: key (none | item itself | derived), consumption (keys | peek | all)
     sc["lens"] = [max(10, sc["length"] - ch.draw(40)) for _ in range(sc["nsrc"])]
     if t == "tee":
         sc["children"] = ch.between(2, 4)
@@ -186,6 +187,8 @@ def execute(st, ctx):
         keyfn = lambda i: -i  # noqa: E731  (every item is a new best: worst case for retention)
     elif tool in ("max", "nlargest"):
         keyfn = lambda i: i  # noqa: E731
+    elif tool == "groupby":
+        keyfn = lambda i: i // (1 + sc["n"] % 3)  # noqa: E731  (many short runs)
     else:
         keyfn = lambda i: i % 5  # noqa: E731
     wrap = (lambda item: (item, item)) if tool == "starmap" else None
@@ -262,6 +265,30 @@ def execute(st, ctx):
             res["end"] = "stop"
             return
         S = streams
+        if tool == "groupby":
+            keysel, consume = sc["gb"]
+            if keysel == 0:
+                gb = L.groupby(S[0])
+            elif keysel == 1:
+                gb = L.groupby(S[0], lambda x: x)
+            else:
+                gb = L.groupby(S[0], lambda x: x.key)
+            del S
+            async for key, group in gb:
+                del key
+                if consume == 1:
+                    async for item in group:
+                        del item
+                        break
+                elif consume == 2:
+                    async for item in group:
+                        del item
+                del group
+                res["steps"] += 1
+                if cnt.alive > cnt.bound and cnt.over is None:
+                    cnt.over = (cnt.alive, cnt.delivered)
+            res["end"] = "stop"
+            return
         if tool == "zip":
             it = L.zip(*S)
         elif tool == "map":
